@@ -285,6 +285,23 @@ def handover_geometry(facts, fn_npath, sink, sink_arg):
     return bad
 
 
+def run_input_accounting(rep, facts):
+    """R5.6: every byte the caller reports with parse(n) enters the parser's bookkeeping, also after the parser reached a final state
+    (a read-ahead driver keeps feeding until it converts the parser): rule R3.2 of C03 re-evaluated -- parse() has no early exit in front
+    of `input_len += new_input` / the drive."""
+    import check as _check
+    from . import c03
+    rep.rule("R5.6", "request::Parser::parse accounts for new_input and drives on every return path, final states included (R3.2): bytes fed after `done` are part of the leftover")
+    sr = _check.Report("tmp", "quick")
+    c03.run(sr, facts)
+    n = 0
+    for i in sr.instances:
+        if i["rule"] == "R3.2":
+            n += 1
+            (rep.ok if i["status"] == "ok" else rep.violation)("R5.6", i["instance"], i["detail"], i["loc"])
+    rep.floor("R5.6", "R3.2 instances", n, 1)
+
+
 def run_async_handoff(rep, facts):
     """R5.5: between two requests of a connection the stream parser is not driven while it already stands at a record
     boundary -- with no active stream it would skip (swallow) whatever part of the next request is already buffered."""
@@ -340,6 +357,7 @@ def main(rep, tier):
     rep.configs.append({"features": "async,http", "profile": "debug", "bodies": len(f.bodies)})
     check.guard(rep, "R5", run, f)
     check.guard(rep, "R5.5", run_async_handoff, f)
+    check.guard(rep, "R5.6", run_input_accounting, f)
     rep.floor("R5", "rule instances", len([i for i in rep.instances if i["status"] == "ok"]), 7)
     import check as _c
     _c.witnesses(rep, "C05", f)
